@@ -316,7 +316,7 @@ func ErrClass(err error) string {
 		return "not-null"
 	case strings.Contains(m, "Check constraint"):
 		return "check"
-	case strings.Contains(m, "foreign key"):
+	case strings.Contains(strings.ToLower(m), "foreign key"):
 		return "fk"
 	}
 	return "other:" + firstWords(m, 6)
